@@ -427,7 +427,7 @@ class MiniInterp:
                     return obj[lo:hi:st]
                 raise Unknown("slice of this value")
             k = self.ev(n.slice, env, fi)
-            if isinstance(obj, (list, tuple, str, dict)):
+            if isinstance(obj, (list, tuple, str, dict, range)):
                 try:
                     return obj[self.key(k) if isinstance(obj, dict) else k]
                 except (KeyError, IndexError, TypeError) as e:
@@ -448,7 +448,32 @@ class MiniInterp:
         if isinstance(n, ast.Lambda):
             return Closure(n, env, fi)
         if isinstance(n, ast.JoinedStr):
-            return Sym("fstring")
+            parts = []
+            for v in n.values:
+                if isinstance(v, ast.Constant):
+                    parts.append(str(v.value))
+                    continue
+                x = self.ev(v.value, env, fi)
+                spec = ""
+                if v.format_spec is not None:
+                    sp = self.ev(v.format_spec, env, fi)
+                    if not isinstance(sp, str):
+                        raise Unknown("format spec")
+                    spec = sp
+                if isinstance(x, (int, float, str, bool, type(None))):
+                    try:
+                        if v.conversion == ord("r"):
+                            x = repr(x)
+                        elif v.conversion == ord("s"):
+                            x = str(x)
+                        parts.append(format(x, spec))
+                    except (ValueError, TypeError):
+                        raise PyRaise("ValueError", n)
+                else:
+                    parts.append(x)
+            if all(isinstance(x, str) for x in parts):
+                return "".join(parts)
+            return Sym("fstring", parts=parts)
         if isinstance(n, ast.NamedExpr):
             v = self.ev(n.value, env, fi)
             env[n.target.id] = v
@@ -675,6 +700,13 @@ class MiniInterp:
                 a2 = [self.iterate(a) if isinstance(a, _Iter) else a for a in args]
                 if name in ("any", "all"):
                     return {"any": any, "all": all}[name](self.truth(x) for x in self.iterate(a2[0]))
+                if name == "sum" and a2 and isinstance(a2[0], (list, tuple)) and any(isinstance(x, (Sym, Lin)) for x in list(a2[0]) + a2[1:]):
+                    acc = Lin.of(a2[1] if len(a2) > 1 else kwargs.get("start", 0))
+                    for x in a2[0]:
+                        acc = acc.add(Lin.of(x))
+                    return acc.simplify()
+                if any(isinstance(x, (Sym, Lin)) for a in a2 for x in (a if isinstance(a, (list, tuple)) else [a])):
+                    raise Unknown(f"builtin {name} on symbolic terms")
                 return {"min": min, "max": max, "sum": sum, "abs": abs, "int": int, "bool": bool, "str": str, "float": float,
                         "round": round, "divmod": divmod}[name](*a2, **kwargs)
             if name in ("list", "tuple"):
@@ -713,6 +745,13 @@ class MiniInterp:
                 raise Unknown("next() of a non-iterator")
             if name == "id":
                 return ("id", args[0].uid) if isinstance(args[0], Sym) else ("id", id(args[0]))
+            if name == "getattr" and len(args) >= 2 and isinstance(args[1], str):
+                try:
+                    return self.getattr(args[0], args[1], None, node)
+                except Unknown:
+                    if len(args) > 2:
+                        return args[2]
+                    raise
             if name == "isinstance":
                 raise Unknown("isinstance")
             if name == "print":
